@@ -526,23 +526,39 @@ def translateFunction (o : Opts) (d : Nat) (f : FunctionP) (st : St) : R :=
 /-- `generate_rand`: only FLOAT (1) and INT8 (3) -/
 def randOk (dtype : Nat) : Bool := dtype == 1 || dtype == 3
 
-/-- `_translate_graph` (+ `_substitute_initializers`) -/
-def translateGraph (o : Opts) (d : Nat) (m : ModelP) (st : St) : R :=
-  if m.functionName.isNone && m.graphName == "" then .error .emptyName
-  else if m.graph.inputs.any (· == "") then .error .emptyName
-  else
-  let funName := match m.functionName with
-    | some f => f
-    | none => cleanup m.graphName
-  let indent := if o.skipInit then 2 else 1
+/-- `function_name`, or the cleaned graph name -/
+def ModelP.funName (m : ModelP) : String :=
+  match m.functionName with
+  | some f => f
+  | none => cleanup m.graphName
+
+/-- body and `return` of `_translate_graph` at a given indentation level.  The main graph gets its own
+    remapping scope (pushed before the body, popped after the `return` line) — fix e68372f. -/
+def graphProg (o : Opts) (d : Nat) (m : ModelP) (funName : String) (indent : Nat) (st : St) : R :=
   -- signature: `_cleanup_variable_name` directly — not the renamer
   let sig := "sig " ++ funName ++ "(" ++ comma (m.graph.inputs.map cleanup) ++ "|)"
+  let st := { st with remaps := [] :: st.remaps }
   match graphBody o (translateNode o m.opsets d indent) m.graph st with
   | .error e => .error e
   | .ok (body, st) =>
     let (rets, st) := translateVars o st m.graph.outputs
-    let prog := [sig] ++ body ++ [line indent ("return " ++ comma rets)]
-    if st.skipped.isEmpty then .ok (prog, st)
+    let st := { st with remaps := st.remaps.drop 1 }
+    .ok ([sig] ++ body ++ [line indent ("return " ++ comma rets)], st)
+
+/-- `_translate_graph` (+ `_substitute_initializers`).  Under `skip_initializers` the function is printed one
+    level deeper; when nothing was skipped that extra indentation is removed again (fix 4af3eb7) — the
+    indentation influences nothing but the printed depth, so the dedented text is the program at depth 1. -/
+def translateGraph (o : Opts) (d : Nat) (m : ModelP) (st0 : St) : R :=
+  if m.functionName.isNone && m.graphName == "" then .error .emptyName
+  else if m.graph.inputs.any (· == "") then .error .emptyName
+  else
+  let funName := m.funName
+  let indent := if o.skipInit then 2 else 1
+  match graphProg o d m funName indent st0 with
+  | .error e => .error e
+  | .ok (prog, st) =>
+    if st.skipped.isEmpty then
+      (if o.skipInit then graphProg o d m funName 1 st0 else .ok (prog, st))
     else if st.skipped.all (fun p => randOk p.2) then
       .ok (["wrap " ++ comma (st.skipped.map (·.1))] ++ prog, st)
     else .error .randInit
